@@ -92,6 +92,17 @@ class RecFormatter(FM.OutputFormatter):
         return self
 
 
+class RecColorFormatter(FM.ColorfulOutputFormatter):
+    """The real colourising formatter (-c); additionally records summary() calls."""
+
+    def summary(self, n_tests, n_failures, n_errors, n_seconds, n_skipped=0):
+        W.ev('summary', n_tests, n_failures, n_errors, n_skipped)
+        return FM.ColorfulOutputFormatter.summary(self, n_tests, n_failures, n_errors, n_seconds, n_skipped)
+
+    def __ch_deep_realize__(self, memo):
+        return self
+
+
 def make_runner(o, layer_tests):
     """layer_tests: list of (layer, [tests]) in *discovery* order."""
     r = R.Runner(options=o, args=['t'], script_parts=['t'])
